@@ -66,7 +66,7 @@ func c08R2(c *Ctx, r *c08Roles) {
 				lbl := c08MutationLabel(M)
 				seen[lbl]++
 				key := fmt.Sprintf("%s|%s#%d", fname, lbl, seen[lbl])
-				mkCut := func() *cut { return newCut().Calls(saves).Edges(off...).Edges(c08InfeasibleAfter(M)...) }
+				mkCut := func() *cut { return newCut().Calls(saves).Edges(off...).Edges(c08InfeasibleAfter(M, r)...) }
 				ret := c08NilReturnAfter(M, mkCut())
 				if ret == nil {
 					c.OK(R2, key, M.Pos(), "every path from this change of the tag map to a nil-error return calls saveIndex (or takes the AutoSaveIndex==false edge)")
